@@ -254,6 +254,7 @@ func loaderFamily(p *core.Prog) walkerFamily {
 func c02(r *core.Report) {
 	c02Reset(r)
 	c02StopOnError(r)
+	c02ExactKey(r)
 	p := r.Prog
 	r.Assumption("that the object found equals the one designated (JSON-pointer drill-down, path joining for every relative spelling, the raw re-read fallback) and resolution-order effects are value-level and not decided")
 
